@@ -239,6 +239,7 @@ func checkC05(p *Prog, res *Result, tier string) {
 	res.rule("C05-R4", "non-blocking sends on event channels exist only in the hub fan-out", 1)
 	res.rule("C05-R5", "one goroutine each for sequencer and hub; only the sequencer sends on the broadcast channel", 3)
 	res.rule("C05-R6", "the per-watch forwarder closes its output channel on every return", 1)
+	res.rule("C05-R7", "a write that was applied but reported with unknown outcome is queued for repair (errors.Is test, before commit), otherwise it is readable but never delivered to watchers (C09-R1)", 3)
 	res.Stats["roles"] = map[string]string{"register": funcName(w.register), "remover": funcName(w.remover), "fanout": funcName(w.fanout),
 		"cacheAdd": funcName(w.cacheAdd), "cacheFind": funcName(w.cacheFind), "watch": funcName(w.watchImpl), "forwarder": funcName(w.forwarder)}
 
@@ -479,6 +480,15 @@ func checkC05(p *Prog, res *Result, tier string) {
 		}
 		if !bad {
 			res.ok("C05-R5", "broadcast channel: single sender", p.pos(w.sequencer.Pos()), "only the sequencer sends on it")
+		}
+	}
+
+	// ---- R7: writes whose outcome is unknown are queued for repair so that they eventually produce their event (C09-R1) ----
+	sub9 := newResult("C09")
+	checkC09(p, sub9, tier)
+	for _, o := range sub9.Obls {
+		if o.Rule == "C09-R1" {
+			res.add("C05-R7", o.Rule+" "+o.Construct, o.Status, o.Pos, o.Detail)
 		}
 	}
 
